@@ -540,6 +540,11 @@ func minimiseInChild(c *Check, sc *Scenario, v Violation) (*Scenario, Violation)
 }
 
 func writeEvidence(c *Check, tier string, base uint64, st *Stats, wall float64, nviol int, W int) {
+	if os.Getenv("VERIF_NO_EVIDENCE") != "" {
+		// set by tools/seedcheck.py and tools/seedall.py: runs against a deliberately broken
+		// tree must not replace the evidence of the real one
+		return
+	}
 	distinct := len(st.Shapes)
 	perHour := 0.0
 	if wall > 0 {
